@@ -156,7 +156,7 @@ def column_relative_humidity(q, p, t, axis=0):
         if len(dim) == 1:
             l = len(es)
         else:
-            l = len(es[axis])
+            l = es.shape[axis]
         # qs = specific_humidity(es, ps)
         qs = np.zeros(dim)
         es = es.swapaxes(0,axis)
